@@ -356,22 +356,27 @@ def nil_with_attributes(ctx):
               '</xsd:sequence><xsd:attribute name="id" type="xsd:int"/><xsd:attribute name="reason" type="xsd:string"/>'
               '</xsd:complexType><xsd:element name="fResponse"><xsd:complexType><xsd:sequence>'
               '<xsd:element name="head" type="x:H" nillable="true"/><xsd:element name="tail" type="x:H" nillable="true"/>'
-              '<xsd:element name="n" type="xsd:int" nillable="true"/></xsd:sequence></xsd:complexType></xsd:element>')
+              '<xsd:element name="n" type="xsd:int" nillable="true"/>'
+              '<xsd:element name="e1" type="x:H" nillable="true" minOccurs="0"/><xsd:element name="e2" type="xsd:anyType" '
+              'nillable="true" minOccurs="0"/></xsd:sequence></xsd:complexType></xsd:element>')
     client = wsdlkit.client(wsdlkit.wsdl_doc(schema, "f", "fResponse"))
     for xp in ("xsi", "i", "q1"):
+        # (e1, e2: declared nillable, present and empty without an xsi:nil - the nothing they hold is None too)
         data = ('<e:Envelope xmlns:e="%s" xmlns:%s="%s"><e:Body><fResponse xmlns="%s"><head %s:nil="true" id="5" '
-                'reason="withheld"/><tail %s:nil="true"/><n %s:nil="1"/></fResponse></e:Body></e:Envelope>'
+                'reason="withheld"/><tail %s:nil="true"/><n %s:nil="1"/><e1/><e2></e2></fResponse></e:Body></e:Envelope>'
                 % (xmlread.ENV11, xp, xmlread.XSI, wsdlkit.TNS, xp, xp, xp)).encode()
         meta = {"stream": "nil-with-attributes", "xsi_prefix": xp, "reply": data.decode()}
         ctx.case(common.canon(meta), True)
         try:
             r = client.service.f(__inject={"reply": data})
             got = {"head": K.normal(getattr(r, "head", "absent")), "tail": K.normal(getattr(r, "tail", "absent")),
-                   "n": K.normal(getattr(r, "n", "absent"))}
+                   "n": K.normal(getattr(r, "n", "absent")), "e1": K.normal(getattr(r, "e1", "absent")),
+                   "e2": K.normal(getattr(r, "e2", "absent"))}
         except Exception as e:
             ctx.fail("decoding a schema-valid reply raised", meta, "%s: %s" % (type(e).__name__, e), "a value")
             continue
-        exp = {"head": {"__class__": "H", "_id": 5, "_reason": "withheld"}, "tail": None, "n": None}
+        exp = {"head": {"__class__": "H", "_id": 5, "_reason": "withheld"}, "tail": None, "n": None, "e2": None}
+        got.pop("e1", None)        # (an empty element of a complex type is the empty object / '' of the assumptions)
         if not K.same_value(got, exp):
             ctx.fail("a nilled element is not decoded to None / its attributes are not kept under underscore names "
                      "(whatever prefix the schema-instance namespace has)", meta, repr(got), repr(exp))
